@@ -826,4 +826,34 @@ theorem densityCount_just_above (d v : ℚ) (n : ℤ) (h0 : (n : ℚ) < d * v) (
 example : densityCount 10 (1 / 1000000) = 1 ∧ densityCount (1 / 100000) 1 = 1 ∧ densityCount 1 (30 + 1 / 32768) = 31 := by
   decide +kernel
 
+/-! ## 8. evaluation histories: evaluation is a function of (expression, values) — a copy made from a parent depends on
+    nothing else (not on siblings made before or after it), and evaluating in two stages is supplying both value sets -/
+
+theorem peval_allVars {K : Type} (σ : Env K) (d : VDom K) : (d.peval σ).allVars = d.allVars := by
+  induction d with
+  | interval | par | tri | circle | sphere | point => rfl
+  | union _ a b iha ihb | cut _ a b iha ihb | inter a b iha ihb | prod a b iha ihb =>
+    simp [VDom.peval, VDom.allVars, iha, ihb]
+  | translate _ d _ ih | rotate _ d _ _ ih | bdry d ih | bdryL d ih | bdryR d ih | userVol d _ ih =>
+    simpa [VDom.peval, VDom.allVars] using ih
+
+section
+variable {K : Type} [Add K] [Sub K] [Mul K] [Div K] [Neg K] [LE K] [DecidableLE K]
+  [OfNat K 0] [OfNat K 1] [OfNat K 2] [OfNat K 3] [OfNat K 4] [Transc K]
+
+/-- **two-stage evaluation** `D(**σ₁)(**σ₂)` has the volume of `D` at `ρ ∪ σ₂ ∪ σ₁` (e.g. `I(t=1)` followed by `(s=2)`) -/
+theorem peval_peval_volume (σ₁ σ₂ : Env K) (d : VDom K) (ρ : Env K)
+    (h1 : ∀ x ∈ d.allVars, σ₁.get x = none) (h2 : ∀ x ∈ d.allVars, σ₂.get x = none) :
+    volume ((d.peval σ₁).peval σ₂) ρ = volume d ((ρ ++ σ₂) ++ σ₁) := by
+  rw [peval_volume_of_params σ₂ (d.peval σ₁) ρ (by rwa [peval_allVars]), peval_volume_of_params σ₁ d (ρ ++ σ₂) h1]
+
+/-- **a family of copies** `[D(**σ) | σ ∈ σs]` made from one parent: every member has the volume of the parent at its own
+    values — whatever else was evaluated before or after it (in the model evaluation is a pure function; the harness
+    checks that the library's copies behave like that: `check_history`) -/
+theorem peval_family_volume (σs : List (Env K)) (d : VDom K) (ρ : Env K)
+    (h : ∀ σ ∈ σs, ∀ x ∈ d.allVars, σ.get x = none) :
+    (σs.map fun σ => volume (d.peval σ) ρ) = σs.map fun σ => volume d (ρ ++ σ) :=
+  List.map_congr_left fun σ hσ => peval_volume_of_params σ d ρ (h σ hσ)
+end
+
 end TPV.Geom
